@@ -57,6 +57,10 @@ static void crit(struct Res* r, int how) {
   unlock(the_mutex);
 }
 
+/* an object whose ONLY reference is a thread-local slot of the running thread (made in a frame that is gone afterwards) */
+static void __attribute__((noinline)) park_in_tls(uint64_t seed) { set(current(Thread), $S("verif-only"), new(TProbe, $I((int64_t)(seed % 100000) + 77))); }
+static void __attribute__((noinline)) scrub_stack(void) { volatile char pad[4096]; for (size_t i = 0; i < sizeof pad; i++) pad[i] = 0; }
+
 /* the workload: everything it computes goes into the digest; with_mutex = 0 for the solo reference run */
 static void __attribute__((noinline)) work(uint64_t seed, int rounds, struct Res* r, int with_mutex, int idx) {
   uint64_t s = seed * 2654435761ULL + 88172645463325252ULL, h = 1469598103934665603ULL;
@@ -74,9 +78,12 @@ static void __attribute__((noinline)) work(uint64_t seed, int rounds, struct Res
     foreach (k in tr) h = mix(h, (uint64_t)c_int(k) * 3 + (uint64_t)c_int(get(tr, k)));
     h = mix(h, len(t)); h = mix(h, len(l)); h = mix(h, hash(t));
     /* allocation heavy: garbage for this thread's own collector, a few survivors checked afterwards */
+    park_in_tls(seed + (uint64_t)round); scrub_stack();
     var keep[8]; for (int i = 0; i < 8; i++) keep[i] = new(TProbe, $I((int64_t)(seed + (uint64_t)i)));
     for (int i = 0; i < 300; i++) { var g = new(TProbe, $I(i)); (void)g; var g2 = new(Int, $I(i)); (void)g2; }
     for (int i = 0; i < 8; i++) { struct TProbe* p = keep[i]; h = mix(h, (uint64_t)p->val); if (p->canary != 0x7470726f6265LL) h = mix(h, 0xDEAD); }
+    { struct TProbe* p = get(current(Thread), $S("verif-only"));        /* still there after this thread's collections */
+      h = mix(h, p->canary == 0x7470726f6265LL ? (uint64_t)p->val : 0xDEAD); }
     /* exceptions */
     for (int i = 0; i < 20; i++) {
       volatile int inner = 0, outer = 0;
